@@ -331,6 +331,81 @@ pub fn check(case: &Case, idx: u64, acc: &mut Acc) {
                 }
             }
         }
+        "sequence" => {
+            // history independence of name resolution: on ONE thread, resolve every built-in name three times (in
+            // order, again, reversed) and build named calendars "a", "a,b", "a", "b" for every ordered pair of the
+            // fully modelled calendars; every object obtained must answer as its name says, whatever came before
+            use rateslib::calendars::NamedCal;
+            let all: Vec<&str> = FULL.iter().chain(PARTIAL.iter()).cloned().chain(["all", "bus"]).collect();
+            let models: BTreeMap<&str, BTreeMap<i64, &'static str>> = FULL.iter().map(|c| (*c, model_holidays(c))).collect();
+            let mut first_seen: BTreeMap<String, Vec<i64>> = BTreeMap::new();
+            let mut order: Vec<&str> = all.clone();
+            order.extend(all.iter().cloned());
+            order.extend(all.iter().rev().cloned());
+            for (k, name) in order.iter().enumerate() {
+                acc.eval();
+                acc.nontrivial();
+                let cal = match get_calendar_by_name(name) {
+                    Ok(c) => c,
+                    Err(_) => {
+                        acc.violate("sequence/name-does-not-resolve", idx, cj(), json!({"fetch": k, "name": name}), json!("Err"));
+                        continue;
+                    }
+                };
+                let hols: Vec<i64> = (DAY_MIN..=day_max()).filter(|z| weekday(*z) < 5 && cal.is_holiday(&to_ndt(*z))).collect();
+                if let Some(m) = models.get(name) {
+                    let want: Vec<i64> = m.keys().cloned().filter(|z| weekday(*z) < 5).collect();
+                    if hols != want {
+                        let diff = hols.iter().find(|z| !want.contains(z)).or(want.iter().find(|z| !hols.contains(z))).cloned().unwrap_or(0);
+                        acc.violate(&format!("sequence/{}/differs-from-rules-after-other-names", name), idx, cj(), json!({"fetch": k, "first_differing_date": fmt_day(diff)}), json!(hols.len()));
+                    }
+                }
+                match first_seen.get(*name) {
+                    None => {
+                        first_seen.insert(name.to_string(), hols);
+                    }
+                    Some(f) => {
+                        if *f != hols {
+                            acc.violate(&format!("sequence/{}/differs-from-first-resolution", name), idx, cj(), json!({"fetch": k}), json!(hols.len()));
+                        }
+                    }
+                }
+            }
+            for a in FULL {
+                for b in FULL {
+                    if a == b {
+                        continue;
+                    }
+                    let union_want: BTreeSet<i64> = models[a].keys().chain(models[b].keys()).cloned().filter(|z| weekday(*z) < 5).collect();
+                    for (step, text) in [a.to_string(), format!("{},{}", a, b), a.to_string(), b.to_string(), format!("{},{}", b, a)].iter().enumerate() {
+                        acc.eval();
+                        let nc = match NamedCal::try_new(text) {
+                            Ok(c) => c,
+                            Err(_) => {
+                                acc.violate("sequence/named-calendar-does-not-build", idx, cj(), json!({"text": text}), json!("Err"));
+                                continue;
+                            }
+                        };
+                        let want: BTreeSet<i64> = match step {
+                            0 | 2 => models[a].keys().cloned().filter(|z| weekday(*z) < 5).collect(),
+                            3 => models[b].keys().cloned().filter(|z| weekday(*z) < 5).collect(),
+                            _ => union_want.clone(),
+                        };
+                        // every modelled holiday and a band of dates around each are compared (all dates would be 42 x 5 x 84k)
+                        let mut bad = None;
+                        for z in union_want.iter() {
+                            if nc.is_holiday(&to_ndt(*z)) != want.contains(z) {
+                                bad = Some(*z);
+                                break;
+                            }
+                        }
+                        if let Some(z) = bad {
+                            acc.violate(&format!("sequence/named/{}", if step == 1 || step == 4 { "pair" } else { "single-after-pair" }), idx, cj(), json!({"text": text, "built_after": format!("{},{}", a, b), "date": fmt_day(z), "want_holiday": want.contains(&z)}), json!(!want.contains(&z)));
+                        }
+                    }
+                }
+            }
+        }
         "all-bus" => {
             let cal = get_calendar_by_name(&case.cal).unwrap();
             for z in DAY_MIN..=day_max() {
@@ -473,6 +548,7 @@ pub fn cases() -> Vec<Case> {
         out.push(Case { cal: c.to_string(), part: "documented".into() });
     }
     out.push(Case { cal: "*".into(), part: "doc-names".into() });
+    out.push(Case { cal: "*".into(), part: "sequence".into() });
     for (_, c) in FIXINGS {
         out.push(Case { cal: c.to_string(), part: "fixings".into() });
     }
@@ -495,7 +571,7 @@ pub fn run(ctx: &Ctx, replay_file: Option<String>) -> ! {
          one-offs) fires; weekends non-business; weekday non-holidays are business days. all/bus have no holidays. \
          fed == nyc minus Good Friday, date for date. tro tyo syd wlg mum: every weekday occurrence of each documented \
          fixed-date / Easter-linked holiday is a holiday (one-directional). Every name in the get_calendar docstring \
-         resolves. For the nine (fixing csv, calendar) pairs the calendar's business days over [first, last \
+         resolves. History independence: on one thread every name is resolved three times (in order, again, reversed) and named calendars 'a', 'a,b', 'a', 'b', 'b,a' are built for every ordered pair of the seven fully modelled calendars; every object obtained must still answer as its rules say. For the nine (fixing csv, calendar) pairs the calendar's business days over [first, last \
          publication] are exactly the publication dates. Non-trivial: weekday holidays / documented names / weekday \
          non-business days in a fixing period.",
         json!({"calendars": 14, "dates": 84371, "fixing_files": 9}),
